@@ -25,7 +25,10 @@ func main() {
 			} else if only == "meta" {
 				isFrag = false
 			}
-			if isFrag {
+			if only == "args" || (only == "" && i%12 == 5) {
+				c := genArgs(r.Fork())
+				vh.Guard(w, vh.MustJSON(c), failTerm, 20, func() vh.Record { return runArgs(c) })
+			} else if isFrag {
 				c, feats := genFrag(r.Fork())
 				vh.Guard(w, vh.MustJSON(c), failTerm, 20, func() vh.Record { return runFrag(c, feats) })
 			} else {
@@ -41,7 +44,13 @@ func main() {
 			if err := json.Unmarshal(raw, &k); err != nil {
 				panic(err)
 			}
-			if k.Kind == "frag" {
+			if k.Kind == "args" {
+				var c ArgsCase
+				if err := json.Unmarshal(raw, &c); err != nil {
+					panic(err)
+				}
+				vh.Guard(w, raw, failTerm, 20, func() vh.Record { return runArgs(c) })
+			} else if k.Kind == "frag" {
 				var c FragCase
 				if err := json.Unmarshal(raw, &c); err != nil {
 					panic(err)
